@@ -6,7 +6,6 @@ import (
 	"io"
 	"log"
 
-	"github.com/dim13/cobs"
 	"github.com/simpleiot/simpleiot/test"
 )
 
@@ -178,12 +177,48 @@ func (cw *CobsWrapper) Read(b []byte) (int, error) {
 	}
 }
 
+// cobsEncode encodes b as a null-terminated COBS frame. A run of exactly 254
+// non-zero bytes that is followed by more data gets code 0xff and the data
+// continues in a new block, so a zero byte after such a run is not lost.
+func cobsEncode(b []byte) []byte {
+	ret := make([]byte, 1, len(b)+len(b)/254+2)
+	// index of the code byte of the block being written
+	iCode := 0
+	code := byte(1)
+
+	for i, c := range b {
+		if c == 0 {
+			// finish block, the zero is implied by the code
+			ret[iCode] = code
+			iCode = len(ret)
+			ret = append(ret, 0)
+			code = 1
+			continue
+		}
+
+		ret = append(ret, c)
+		code++
+
+		if code == 0xff && i < len(b)-1 {
+			// block is full, continue in a new one (no implied zero)
+			ret[iCode] = code
+			iCode = len(ret)
+			ret = append(ret, 0)
+			code = 1
+		}
+	}
+
+	ret[iCode] = code
+
+	return append(ret, 0)
+}
+
 func (cw *CobsWrapper) Write(b []byte) (int, error) {
 	if cw.debug >= 8 {
 		log.Println("SER TX RAW:", test.HexDump(b))
 	}
 
-	w := append([]byte{0}, cobs.Encode(b)...)
+	w := append([]byte{0}, cobsEncode(b)...)
 
 	if cw.debug >= 9 {
 		log.Println("SER TX COBS:", test.HexDump(w))
